@@ -189,3 +189,14 @@ Theorem C09_global_is_source : forall fuel m a b steps s, covers m a b ->
   ImpGen.imp_align_Global fuel a b m = GoSem.Ret (map ImpProofsD.step_n steps, s).
 Proof. exact ImpProofsE.imp_Global_ok. Qed.
 Print Assumptions C09_global_is_source.
+
+From Bio.Proofs Require ImpProofsF.
+
+(* The same for Local (local.go: the DP loop with the clamp at zero, argmax,
+   traceAlignmentStepsLocal with its break, the start offsets i/bn-1 and i%bn-1). *)
+Theorem C09_local_is_source : forall fuel m a b steps ai bi s, covers m a b ->
+  (S (length a) * S (length b) < fuel)%nat ->
+  local m a b = Ok (steps, ai, bi, s) ->
+  ImpGen.imp_align_Local fuel a b m = GoSem.Ret (map ImpProofsD.step_n steps, ai, bi, s).
+Proof. exact ImpProofsF.imp_Local_ok. Qed.
+Print Assumptions C09_local_is_source.
